@@ -15,12 +15,14 @@ pub open spec fn tf_burn_msg(denom: Seq<char>, amount: nat, from: Seq<char>, m: 
 
 /// C02: the withdrawal refund of one asset: floor(reserve * floor18(amount/supply) / 10^18)
 pub open spec fn share_ratio_spec(amount: nat, supply: nat) -> nat { (amount * DEC) / supply }
-pub open spec fn withdraw_refund(reserve: nat, ratio: nat) -> nat { (reserve * ratio) / DEC }
-pub open spec fn refund_coin(c: Coin, ratio: nat) -> Coin {
-    Coin { denom: c.denom, amount: Uint128 { v: withdraw_refund(c.amount@, ratio) as u128 } }
+/// C02: what a withdrawal of `amount` LP out of `supply` pays from a reserve: the exact floor(reserve * amount / supply)
+/// (fix F5; before it the share was first truncated to 18 decimals, which short-changed the holder by up to reserve * 1e-18)
+pub open spec fn withdraw_refund(reserve: nat, amount: nat, supply: nat) -> nat { (reserve * amount) / supply }
+pub open spec fn refund_coin(c: Coin, amount: nat, supply: nat) -> Coin {
+    Coin { denom: c.denom, amount: Uint128 { v: withdraw_refund(c.amount@, amount, supply) as u128 } }
 }
-pub open spec fn refund_seq(assets: Seq<Coin>, ratio: nat) -> Seq<Coin> {
-    assets.map_values(|c: Coin| refund_coin(c, ratio))
+pub open spec fn refund_seq(assets: Seq<Coin>, amount: nat, supply: nat) -> Seq<Coin> {
+    assets.map_values(|c: Coin| refund_coin(c, amount, supply))
 }
 pub open spec fn nonzero_coins(s: Seq<Coin>) -> Seq<Coin> { s.filter(|c: Coin| c.amount@ > 0) }
 
@@ -79,23 +81,19 @@ pub proof fn lemma_coin_sum_distinct(s: Seq<Coin>, j: int)
 }
 
 /// the non-zero refund coins carry, per pool asset, exactly that asset's refund, and nothing for other denoms
-pub proof fn lemma_withdraw_refund_sums(p: PoolInfo, ratio: nat)
-    requires pool_wf(p), ratio <= DEC,
+pub proof fn lemma_withdraw_refund_sums(p: PoolInfo, amount: nat, supply: nat)
+    requires pool_wf(p), forall|j: int| 0 <= j < p.assets@.len() ==> withdraw_refund(#[trigger] p.assets@[j].amount@, amount, supply) <= U128_MAX,
     ensures
-        forall|j: int| 0 <= j < p.assets@.len() ==> coin_sum(nonzero_coins(refund_seq(p.assets@, ratio)), #[trigger] p.assets@[j].denom@) == withdraw_refund(p.assets@[j].amount@, ratio),
-        forall|j: int| 0 <= j < p.assets@.len() ==> withdraw_refund(#[trigger] p.assets@[j].amount@, ratio) <= p.assets@[j].amount@,
-        forall|k: int| 0 <= k < nonzero_coins(refund_seq(p.assets@, ratio)).len() ==> has_asset(p, #[trigger] nonzero_coins(refund_seq(p.assets@, ratio))[k].denom@),
+        forall|j: int| 0 <= j < p.assets@.len() ==> coin_sum(nonzero_coins(refund_seq(p.assets@, amount, supply)), #[trigger] p.assets@[j].denom@) == withdraw_refund(p.assets@[j].amount@, amount, supply),
+        forall|k: int| 0 <= k < nonzero_coins(refund_seq(p.assets@, amount, supply)).len() ==> has_asset(p, #[trigger] nonzero_coins(refund_seq(p.assets@, amount, supply))[k].denom@),
 {
-    let rs = refund_seq(p.assets@, ratio);
+    let rs = refund_seq(p.assets@, amount, supply);
     let nz = nonzero_coins(rs);
     assert forall|a: int, b: int| 0 <= a < b < rs.len() implies #[trigger] rs[a].denom@ != #[trigger] rs[b].denom@ by {
         assert(p.assets@[a].denom@ != p.assets@[b].denom@);
     }
-    assert forall|j: int| 0 <= j < p.assets@.len() implies withdraw_refund(#[trigger] p.assets@[j].amount@, ratio) <= p.assets@[j].amount@ by {
-        lemma_refund_le_reserve(p.assets@[j].amount@, ratio);
-    }
-    assert forall|j: int| 0 <= j < p.assets@.len() implies coin_sum(nz, #[trigger] p.assets@[j].denom@) == withdraw_refund(p.assets@[j].amount@, ratio) by {
-        lemma_refund_le_reserve(p.assets@[j].amount@, ratio);
+    assert forall|j: int| 0 <= j < p.assets@.len() implies coin_sum(nz, #[trigger] p.assets@[j].denom@) == withdraw_refund(p.assets@[j].amount@, amount, supply) by {
+        assert(withdraw_refund(p.assets@[j].amount@, amount, supply) <= U128_MAX);
         lemma_coin_sum_nonzero(rs, p.assets@[j].denom@);
         assert(rs[j].denom@ == p.assets@[j].denom@);
         lemma_coin_sum_distinct(rs, j);
@@ -107,33 +105,28 @@ pub proof fn lemma_withdraw_refund_sums(p: PoolInfo, ratio: nat)
     }
 }
 
-/// a refund never exceeds the reserve it is taken from when the share ratio is at most 1
-pub proof fn lemma_refund_le_reserve(reserve: nat, ratio: nat)
-    requires ratio <= DEC,
-    ensures withdraw_refund(reserve, ratio) <= reserve,
-{
-    assert(reserve * ratio <= reserve * DEC) by (nonlinear_arith) requires ratio <= DEC;
-    vstd::arithmetic::div_mod::lemma_div_is_ordered((reserve * ratio) as int, (reserve * DEC) as int, DEC as int);
-    vstd::arithmetic::div_mod::lemma_div_multiples_vanish(reserve as int, DEC as int);
-}
-
 // @lemma withdraw_refund_upper_bound [C02]
 /// C02: a withdrawal pays, for each asset, at most reserve * burned / supply
 pub proof fn lemma_refund_upper(reserve: nat, amount: nat, supply: nat)
     requires supply > 0,
-    ensures withdraw_refund(reserve, share_ratio_spec(amount, supply)) * supply <= reserve * amount,
+    ensures withdraw_refund(reserve, amount, supply) * supply <= reserve * amount,
 {
-    let ratio = share_ratio_spec(amount, supply);
-    let r = withdraw_refund(reserve, ratio);
-    vstd::arithmetic::div_mod::lemma_fundamental_div_mod((amount * DEC) as int, supply as int);
-    vstd::arithmetic::div_mod::lemma_mod_bound((amount * DEC) as int, supply as int);
-    assert(supply * ratio <= amount * DEC);
-    vstd::arithmetic::div_mod::lemma_fundamental_div_mod((reserve * ratio) as int, DEC as int);
-    vstd::arithmetic::div_mod::lemma_mod_bound((reserve * ratio) as int, DEC as int);
-    assert(DEC * r <= reserve * ratio);
-    assert(DEC * (r * supply) <= DEC * (reserve * amount)) by (nonlinear_arith)
-        requires DEC * r <= reserve * ratio, supply * ratio <= amount * DEC;
-    assert(r * supply <= reserve * amount) by (nonlinear_arith) requires DEC * (r * supply) <= DEC * (reserve * amount);
+    vstd::arithmetic::div_mod::lemma_fundamental_div_mod((reserve * amount) as int, supply as int);
+    vstd::arithmetic::div_mod::lemma_mod_bound((reserve * amount) as int, supply as int);
+    let r = withdraw_refund(reserve, amount, supply);
+    assert(r * supply == supply * r) by (nonlinear_arith);
+}
+
+// @lemma withdraw_refund_lower_bound [C02]
+/// C02: "... and at least that minus one smallest unit": the refund is less than one unit below reserve * burned / supply
+pub proof fn lemma_refund_lower(reserve: nat, amount: nat, supply: nat)
+    requires supply > 0,
+    ensures (withdraw_refund(reserve, amount, supply) + 1) * supply > reserve * amount,
+{
+    vstd::arithmetic::div_mod::lemma_fundamental_div_mod((reserve * amount) as int, supply as int);
+    vstd::arithmetic::div_mod::lemma_mod_bound((reserve * amount) as int, supply as int);
+    let r = withdraw_refund(reserve, amount, supply);
+    assert((r + 1) * supply == supply * r + supply) by (nonlinear_arith);
 }
 
 } // verus!
